@@ -166,6 +166,7 @@ class Ownership:
         self.stats = {"functions": 0, "variants": 0, "rounds": 0, "calls": 0, "calls_resolved": 0, "calls_by_name": 0,
                       "calls_external_or_unknown": 0}
         self._family_cache: Dict[str, str] = {}
+        self._fam_fields: Dict[str, Set[str]] = {}
         self._cfg_cache: Dict[str, CFG] = {}
         self._tested_params: Dict[str, Set[str]] = {}
         self._changed = False
@@ -182,6 +183,24 @@ class Ownership:
             q = self.ix.mro(ci)[-1].qname
             self._family_cache[ci.qname] = q
         return q
+
+    def family_fields(self, fam: str) -> Set[str]:
+        """Attribute names instances of the class family are known to carry:
+        class-level attributes / annotations and `self.<attr> = ...` stores."""
+        c = self._fam_fields.get(fam)
+        if c is None:
+            c = set()
+            for ci in self.ix.subclasses(fam):
+                c |= set(ci.attrs) | set(ci.annotations)
+                for m in ci.methods.values():
+                    for n in A.body_nodes(m.node):
+                        if isinstance(n, ast.Attribute) and isinstance(n.ctx, ast.Store) and isinstance(n.value, ast.Name) and n.value.id in ("self", "cls"):
+                            c.add(n.attr)
+                        # alternate constructors: `self = cls(...); self.x = ...`
+                        if isinstance(n, ast.Attribute) and isinstance(n.ctx, ast.Store) and isinstance(n.value, ast.Name) and m.is_classmethod:
+                            c.add(n.attr)
+            self._fam_fields[fam] = c
+        return c
 
     def add_edge(self, src: Atom, dst: Atom):
         if src == dst:
@@ -223,7 +242,12 @@ class Ownership:
         for a in atoms:
             if a and a[0] in ("SELF", "CTX", "GS", "INST"):
                 out.add(a)
-            out |= self.special.get(a, set())
+            tags = self.special.get(a, ())
+            if a and a[0] in ("PE", "FE", "RE"):
+                # the atom stands for "an element of ...": element types apply to the value itself
+                out |= {("SELF", t[1]) if t[0] == "ESELF" else t for t in tags if t[0] != "SELF"}
+            else:
+                out |= {t for t in tags if t[0] != "ESELF"}
         return out
 
     def propagate_specials(self):
@@ -240,7 +264,22 @@ class Ownership:
                 cur = self.special.setdefault(d, set())
                 # "is an instance of family X" / "is the context namespace" describe the
                 # object itself: they travel only between own-level slots
-                ok_tags = tags if d[0] in ("P", "F", "R") else {t for t in tags if t[0] not in ("SELF", "CTX")}
+                src_own = a[0] in ("P", "F", "R", "SELF", "CTX", "GS", "INST")
+                dst_own = d[0] in ("P", "F", "R")
+                ok_tags = set()
+                for t in tags:
+                    if t[0] == "CTX":
+                        if dst_own and src_own:
+                            ok_tags.add(t)
+                    elif t[0] == "SELF":
+                        # becoming an element of a container: remember "elements are instances of ..."
+                        ok_tags.add(t if dst_own and src_own else ("ESELF", t[1]) if (src_own and not dst_own) else None)
+                    elif t[0] == "ESELF":
+                        # element extracted again / container copied
+                        ok_tags.add(("SELF", t[1]) if (dst_own and not src_own) else t if (not dst_own and not src_own) else None)
+                    else:
+                        ok_tags.add(t)
+                ok_tags.discard(None)
                 new = ok_tags - cur
                 if new:
                     cur |= new
@@ -711,7 +750,11 @@ class FuncEval:
                 if not pkg:
                     self.write(c, "mutator", f.value)
                     if name in INSERTERS and len(c.args) > INSERTERS[name]:
-                        self.contain(f.value, self.eval(c.args[INSERTERS[name]]), c)
+                        k = (self.fi.short, self.kt(c))
+                        if k in self.o.exempt_fresh:
+                            self.o.used_exempt.add(k)
+                        else:
+                            self.contain(f.value, self.eval(c.args[INSERTERS[name]]), c)
         if isinstance(f, ast.Name) and name == "setattr" and len(c.args) >= 3:
             self.write(c, "setattr", c.args[0])
             self.contain(c.args[0], self.eval(c.args[2]), c)
@@ -820,6 +863,43 @@ class FuncEval:
             return self.eval(d.value)
         return EMPTY
 
+    def families_of(self, v: Val) -> List[str]:
+        return sorted({t[1] for t in self.o.specials_of(v.own) if t[0] == "SELF"})
+
+    def property_call(self, e: ast.Attribute) -> Optional[Val]:
+        """`obj.attr` where attr is a @property / @cached_property of obj's class
+        family: evaluate as a call of that method."""
+        base = e.value
+        if isinstance(base, ast.Name) and base.id in ("self", "cls") and self.cls is not None and not self.fi.is_static \
+                and all(d.kind == "param" for d in self.cfg.reaching_defs(base.id, base)):
+            fams = [self.fam]
+        else:
+            cands = [m for m in self.ix.methods_named(e.attr) if m.is_property]
+            if not cands:
+                return None
+            fams = self.families_of(self.eval(base))
+        out = []
+        for fam in fams:
+            for ci in self.ix.subclasses(fam):
+                m = ci.methods.get(e.attr)
+                if m is not None and m.is_property and not any(d.endswith(".setter") for d in m.decorators):
+                    v = self.o.request(m, ())
+                    out.append(self.o.slot(("R", v.key)))
+        return join(*out) if out else None
+
+    def dunder_call(self, recv: Val, name: str, args: List[Val]) -> Optional[Val]:
+        out = []
+        for fam in self.families_of(recv):
+            for ci in self.ix.subclasses(fam):
+                m = ci.methods.get(name)
+                if m is not None:
+                    v = self.o.request(m, ())
+                    pos = [x.arg for x in m.node.args.args][1:]
+                    for pn, av in zip(pos, args):
+                        self.o.flow(av, ("P", v.key, pn))
+                    out.append(self.o.slot(("R", v.key)))
+        return join(*out) if out else None
+
     def unpack(self, it: ast.AST, target: ast.AST, name: str) -> Val:
         """Value bound to `name` when iterating `it` with `target`."""
         if isinstance(target, ast.Name):
@@ -872,7 +952,7 @@ class FuncEval:
             if tag[0] == "CTX":
                 return ("F", tag[1], "context." + e.attr)
         for tag in sorted(sp):
-            if tag[0] == "SELF":
+            if tag[0] == "SELF" and e.attr in self.o.family_fields(tag[1]):
                 return ("F", tag[1], e.attr)
         return None
 
@@ -905,6 +985,9 @@ class FuncEval:
                     got = [self.o_attrs().get((id(d.binder), d.name, e.attr)) for d in ds]
                     if all(g is not None for g in got):
                         return join(*got)
+            prop = self.property_call(e)
+            if prop is not None:
+                return prop
             fld = self.field_of(e)
             if fld is not None:
                 v = self.o.slot(fld)
@@ -914,7 +997,7 @@ class FuncEval:
                 for tag in sp:
                     if tag[0] == "CTX":
                         v = join(v, self.o.slot(("F", tag[1], "context." + e.attr)))
-                    elif tag[0] == "SELF":
+                    elif tag[0] == "SELF" and e.attr in self.o.family_fields(tag[1]):
                         v = join(v, self.o.slot(("F", tag[1], e.attr)))
                 return v
             if isinstance(e.value, ast.Name) and e.value.id not in ("self", "cls") and self.cfg.reaching_defs(e.value.id, e.value):
@@ -931,6 +1014,9 @@ class FuncEval:
             return b.below()
         if isinstance(e, ast.Subscript):
             b = self.eval(e.value)
+            gi = self.dunder_call(b, "__getitem__", [self.eval(e.slice)] if not isinstance(e.slice, ast.Slice) else [])
+            if gi is not None:
+                return join(b.element(), gi)
             return b.element()
         if isinstance(e, ast.Starred):
             return self.eval(e.value)
@@ -1049,6 +1135,10 @@ class FuncEval:
             if not pkg or how in ("external", "unresolved"):
                 if name in ELEM_METHODS:
                     v = recv.element()
+                    if name in ("get", "__getitem__"):
+                        gi = self.dunder_call(recv, "__getitem__", args[:1])
+                        if gi is not None:
+                            v = join(v, gi)
                     if name in ("get", "setdefault", "pop") and len(args) > 1:
                         v = join(v, args[1])
                     if name == "copy":
@@ -1107,6 +1197,16 @@ class FuncEval:
             else:
                 out.append(self.eval(a))
         return out
+
+    def _is_self_dict_plumbing(self, e: ast.AST) -> bool:
+        def is_prune(x):
+            return isinstance(x, ast.Call) and A.callee_name(x) == "prune_unknown_kwargs" and x.args and A.text(x.args[0]) == "self.__dict__"
+        if is_prune(e):
+            return True
+        if isinstance(e, ast.Name):
+            ds = self.cfg.reaching_defs(e.id, e)
+            return bool(ds) and all(d.kind == "assign" and is_prune(d.element()[0]) for d in ds)
+        return False
 
     def field_classes(self, f: ast.Attribute) -> List[ClassInfo]:
         if not (isinstance(f.value, ast.Name) and f.value.id == "self" and self.cls is not None):
@@ -1246,7 +1346,13 @@ class FuncEval:
                     for pn in pos + kwonly:
                         if pn not in actual:
                             actual[pn] = (self.o.slot(("P", self.v.key, f"{my_kwarg.arg}:{pn}")), None)
-                continue  # other **mappings: option plumbing, not source objects
+                elif self.cls is not None and self._is_self_dict_plumbing(kw.value):
+                    # **prune_unknown_kwargs(self.__dict__, consumer): every unbound parameter of the
+                    # consumer receives the compiler field of the same name
+                    for pn in pos + kwonly:
+                        if pn not in actual:
+                            actual[pn] = (self.o.slot(("F", self.fam, pn)), None)
+                continue  # other **mappings: not source objects
             v = self.eval(kw.value)
             if kw.arg in pos or kw.arg in kwonly:
                 actual[kw.arg] = (v, kw.value)
